@@ -12,7 +12,7 @@ RULE = ('exhaustive over the live tables of the tree under test: one case per ra
         'cross-reference table (built-in policies, host-key probe table, probe key-exchange tables captured from the running probe functions with a trace hook, '
         'denial-of-service tables), and one executed standard audit per built-in policy against a peer synthesised exactly from that policy; '
         'a case is non-trivial when it inspected at least one table entry or completed its audit; distinct = distinct tables / policies')
-REQUIRED = {'policy_audits_after_weak': 3, 'table_digest_checks': 3, 'db_entries': 300, 'policy_names_checked': 500, 'probe_names_checked': 20, 'dheat_names_checked': 30, 'policy_audits': 40, 'locals_captured': 2}
+REQUIRED = {'policy_audits_after_weak_json': 1, 'policy_audits_after_weak': 3, 'table_digest_checks': 3, 'db_entries': 300, 'policy_names_checked': 500, 'probe_names_checked': 20, 'dheat_names_checked': 30, 'policy_audits': 40, 'locals_captured': 2}
 ASSUMPTIONS = ['broken-primitive tokens are the ones the statement lists (md5, sha1, arcfour/rc4, des/3des, none, dss, 1024-bit groups, NIST curves, ripemd, blowfish, cast, idea, rijndael, seed, serpent); calibrated to hold with 0 exceptions on the pinned tree',
                'all built-in policies are hardening policies (their names start with "Hardened")']
 MANIFEST = {
@@ -46,7 +46,7 @@ def cases(tier, seed):
     for i, name in enumerate(server_pols):
         if tier == 'quick' and i % 8 != seed % 8:
             continue
-        cs.append({'kind': 'policy-audit-after-weak', 'policy': name})
+        cs.append({'kind': 'policy-audit-after-weak', 'policy': name, 'json': (i // 8) % 2 == 1 if tier == 'quick' else i % 2 == 1})   # text and JSON rendering alternate
     return cs
 
 
@@ -267,23 +267,29 @@ def run_after_weak(c):
     weak['hostkeys']['rsa-sha2-256'] = {'type': 'rsa', 'bits': 1024}
     targets = [multi.Target('weak', weak), multi.Target('synth', synth_script(pol, False))]
     try:
-        res = multi.run_multi(targets, 1, 'text', monitors=['tables'], timeout=120)
+        res = multi.run_multi(targets, 1, 'json' if c.get('json') else 'text', monitors=['tables'], timeout=120)
     finally:
         for t in targets:
             t.stop()
     r = res['run']
     viol = []
-    blocks = (res['blocks'] or {}).get(targets[1].spec) or []
-    if not blocks:
-        return None, {'why': 'no block for the synthesised peer: status %s' % r.status}
-    rep = report.parse_text(blocks[0])
-    fails = sorted((cat, nme, txt) for (cat, nme, lvl, txt) in rep.findings() if lvl == 'fail')
+    if c.get('json'):
+        docs = (res.get('docs') or {}).get(targets[1].spec) or []
+        if not docs:
+            return None, {'why': 'no JSON entry for the synthesised peer: status %s' % r.status}
+        fails = sorted((cat, nme, txt) for (cat, nme, lvl, txt) in report.json_findings(docs[0]) if lvl == 'fail')
+    else:
+        blocks = (res['blocks'] or {}).get(targets[1].spec) or []
+        if not blocks:
+            return None, {'why': 'no block for the synthesised peer: status %s' % r.status}
+        rep = report.parse_text(blocks[0])
+        fails = sorted((cat, nme, txt) for (cat, nme, lvl, txt) in rep.findings() if lvl == 'fail')
     if fails:
         viol.append(_v('C17/policy-peer-shows-failure-after-other-scan:' + fails[0][1], 'a peer configured exactly per a built-in policy shows a failure when audited after a weak target in the same run', policy=c['policy'], fails=fails[:5]))
     md = [e for e in (r.monitor or []) if e['k'] == 'master-digest' and e.get('when') == 'exit']
     if md and not md[0].get('same'):
         viol.append(_v('C17/master-table-changed-by-scan', 'the rating database itself was modified by a scan, so table agreement no longer holds for later audits', policy=c['policy']))
-    return viol, {'policy_audits_after_weak': 1, 'table_digest_checks': 1 if md else 0}
+    return viol, {'policy_audits_after_weak': 1, 'policy_audits_after_weak_json': 1 if c.get('json') else 0, 'table_digest_checks': 1 if md else 0}
 
 
 def run_case(c):
